@@ -94,7 +94,7 @@ func ruleArgsCodec(c *Ctx, rule string) {
 	// hop 1 writer: Bind
 	if bind := c.MustFn(rule, spPkg, "(*FloatingIPPlugin).Bind"); bind != nil {
 		wrote := ""
-		allInstrs(bind, func(in ssa.Instruction) {
+		allInstrsX(bind, func(in ssa.Instruction) { // also in the helpers Bind was split into
 			if mu, ok := in.(*ssa.MapUpdate); ok {
 				if s, ok := constStringVal(mu.Key); ok {
 					wrote = s
@@ -166,6 +166,22 @@ func ruleArgsCodec(c *Ctx, rule string) {
 		for _, s := range calls(p, "strings.SplitN") {
 			kv, _ = constStringVal(s.Common().Args[1])
 			n, _ = constIntVal(s.Common().Args[2])
+		}
+		for _, s := range calls(p, "strings.Cut") {
+			kv, _ = constStringVal(s.Common().Args[1])
+			n = 2 // Cut is SplitN(.., sep, 2)
+		}
+		if format == "" {
+			// k + "=" + v: a string concatenation with one constant operand
+			allInstrs(b, func(in ssa.Instruction) {
+				if bo, ok := in.(*ssa.BinOp); ok && bo.Op == token.ADD {
+					for _, o := range []ssa.Value{bo.X, bo.Y} {
+						if s, ok := constStringVal(o); ok && s != "" {
+							format = "%s" + s + "%s"
+						}
+					}
+				}
+			})
 		}
 		c.ob(rule, b, "BuildCNIArgs and ParseCNIArgs agree on separators", nil, join != "" && join == split && format == "%s"+kv+"%s" && n == 2,
 			fmt.Sprintf("join %q / split %q; entry format %q / key-value split %q limit %d", join, split, format, kv, n))
@@ -382,6 +398,8 @@ func ruleDecoderPerIP(c *Ctx, rule string) {
 		c.undecided(rule, fn, "IPInfoToResult", nil, "expected one call")
 		return
 	}
+	// the decode loop may live in a helper Allocate calls: the rule is about the function that holds the loop
+	fn = conv[0].Parent()
 	ia, ok := conv[0].Common().Args[0].(*ssa.IndexAddr)
 	if !ok {
 		c.undecided(rule, fn, "IPInfoToResult argument", conv[0], "argument is not &ipInfos[j]")
